@@ -287,7 +287,28 @@ def check(ctx):
                 return (f" in {itn}" in txt or f"<= {itn}.keys()" in txt or f"issubset({itn}" in txt) and \
                     ((lab == "T" and ("all(" in txt or "<=" in txt or "issubset" in txt or txt.startswith("not "))) or
                      (lab == "F" and ("any(" in txt or (f"not in {itn}" in txt and not txt.startswith("not ")))))
-            ok = found is None or any(_nothing_missing(lab, t) for lab, t in tests)
+            def _full_count(lab, t):
+                """len(item) == N where N is the number of keys of ALL items (len of dict.fromkeys(self.keys()) / self.keys()),
+                or None: the item's keys are a subset of that union, so an equal count means no key is missing."""
+                if lab != "T" or not (isinstance(t, ast.Compare) and len(t.ops) == 1 and isinstance(t.ops[0], ast.Eq)):
+                    return False
+                sides = [t.left, t.comparators[0]]
+                cnt = [x for x in sides if norm(x) == f"len({itn})"]
+                oth = [x for x in sides if norm(x) != f"len({itn})"]
+                if len(cnt) != 1 or len(oth) != 1 or not isinstance(oth[0], ast.Name):
+                    return False
+                S_ = fm.params[0]
+                okd = []
+                for d in defs_reaching(fm, oth[0].id, t):
+                    if d.value is None or d.node is None:
+                        return False
+                    if isinstance(d.value, ast.Constant) and d.value.value is None:
+                        okd.append(True)
+                        continue
+                    txt = norm(_expand(fm, d.value, d.node.ast))
+                    okd.append(txt.startswith((f"len(dict.fromkeys({S_}.keys()", f"len({S_}.keys())", f"len(set({S_}.keys()))")))
+                return bool(okd) and all(okd)
+            ok = found is None or any(_nothing_missing(lab, t) or _full_count(lab, t) for lab, t in tests)
             ctx.ob("KEY-all", fm, f"yield {norm(y.value) if y.value is not None else ''} after the fill loop", y, ok,
                    "the item is handed on only after every named key was looked at" if ok else
                    f"an item can be handed on without passing the fill loop (under {[(l, norm(t)) for l, t in tests][:2]}): that test does "
